@@ -294,5 +294,7 @@ CLAUSES = [
            'max_line_len - indent (0-40), list/tuple/dict/str containers; unwrapped token sequence identical, every line within '
            'its limit unless it holds a single token, short values single quoted line. Non-trivial = >= 3 lines'),
 ]
+# coverage-guided campaigns of the thorough tier: (clause, executions per worker, workers)
+FUZZ = [('C18.range', 12000, 3), ('C18.wrap', 12000, 2)]
 ASSUMPTIONS = ['"A to B" denotes the ids between the two endpoints rendered with the endpoint\'s digit count',
                'tokens contain no blanks, quotes or backslashes']
